@@ -349,20 +349,25 @@ class Check:
         if qual:
             self.analysed_functions.add(f"{mod.name}:{qual}")
 
-    def ob(self, rule: str, construct: str, ok, detail: str = "", loc: str = "", facts=None):
+    def ob(self, rule: str, construct: str, ok, detail: str = "", loc: str = "", facts=None, sure: bool = False):
+        """sure=True: the verdict comes from an extractor that fully understood the code it read (a finite evaluation that ran to the
+        end, an algebraic comparison of two normal forms); such a violation stands even in a function rewritten since the rule was
+        written. Extractors that cannot read a shape say undecided, so they never reach here with a wrong `False`."""
         if rule not in self.rules_text:
             raise AnalysisError(f"internal: rule {rule} used before being declared")
         status = OK if ok is True else VIOLATED if ok is False else UNDECIDED
         deps = tuple(dict.fromkeys(ACCESS_LOG))
         del ACCESS_LOG[:]
-        self.obs.append(Obligation(rule, construct, status, detail, loc, facts, deps))
+        o = Obligation(rule, construct, status, detail, loc, facts, deps)
+        o.sure = bool(sure)
+        self.obs.append(o)
         return ok
 
     def ok(self, rule, construct, detail="", loc="", facts=None):
         return self.ob(rule, construct, True, detail, loc, facts)
 
-    def bad(self, rule, construct, detail="", loc="", facts=None):
-        return self.ob(rule, construct, False, detail, loc, facts)
+    def bad(self, rule, construct, detail="", loc="", facts=None, sure=False):
+        return self.ob(rule, construct, False, detail, loc, facts, sure=sure)
 
     def undecided(self, rule, construct, detail="", loc="", facts=None):
         return self.ob(rule, construct, None, detail, loc, facts)
@@ -589,7 +594,7 @@ class Check:
         if not restructured:
             return
         for o in self.obs:
-            if o.status != VIOLATED or o.rule in self.shape_independent or o.key in open_keys:
+            if o.status != VIOLATED or o.rule in self.shape_independent or o.key in open_keys or getattr(o, "sure", False):
                 continue
             names = [f"{mn}:{q}" for (mn, q) in o.deps]
             fa = self._function_at(o.loc)
@@ -778,7 +783,7 @@ def conditions_at(f, target):
     return out
 
 
-def inline_locals(f, expr, keep=(), depth=8):
+def inline_locals(f, expr, keep=(), depth=8, skip_calls=False):
     """expr with every local of f that is assigned exactly once (a plain `name = expression`) replaced by that expression, recursively.
     Names in `keep`, parameters, names assigned more than once and names bound by loops/with/unpacking stay. Returns a new tree."""
     import copy
@@ -829,7 +834,8 @@ def inline_locals(f, expr, keep=(), depth=8):
             self.d = d
 
         def visit_Name(self, node):
-            if isinstance(node.ctx, ast.Load) and node.id in single and node.id not in keep and node.id not in ps and self.d > 0:
+            if isinstance(node.ctx, ast.Load) and node.id in single and node.id not in keep and node.id not in ps and self.d > 0 \
+                    and not (skip_calls and isinstance(single[node.id], ast.Call)):
                 return _Sub(self.d - 1).visit(clean(single[node.id]))
             return node
     return _Sub(depth).visit(clean(expr))
